@@ -12,7 +12,10 @@ Both patches are models of *Python builtins* (the environment), not of cylc code
    ``Tokens`` is immutable and cannot be deep-copied; every log f-string formats
    a task proxy).
 
-``selftest()`` checks both patched builtins against the native ones on concrete
+3. ``hash(x)``: CrossHair's model without its short-circuitable contract (see
+   ``_hash2``).
+
+``selftest()`` checks the patched builtins against the native ones on concrete
 values; it is run by every worker before analysis.
 """
 import builtins
@@ -87,9 +90,22 @@ def _format2(obj, format_spec=""):
     return _orig_format(obj, format_spec)
 
 
+def _hash2(obj):
+    # CrossHair's own hash() model carries a contract, so calls may be
+    # short-circuited to an unconstrained symbolic int; a Python-level
+    # __hash__ (cylc's PointBase: hash(self.value)) then hands that symbolic
+    # to C code (dict/set insertion) which rejects it.  Same semantics, no
+    # contract: always compute the hash.
+    with NoTracing():
+        if not B.is_hashable(obj):
+            return hash(obj)  # error in the native way
+    return B.invoke_dunder(obj, "__hash__")
+
+
 def install():
     _PATCH_REGISTRATIONS[builtins.int] = _int2
     _PATCH_REGISTRATIONS[builtins.format] = _format2
+    _PATCH_REGISTRATIONS[builtins.hash] = _hash2
 
 
 def selftest():
@@ -113,6 +129,9 @@ def selftest():
                 n += 1
             else:
                 raise AssertionError(bad)
+    for v in ('2', 7, (1, 'a'), IntegerPoint('3'), None, 2.5):
+        assert _hash2(v) == hash(v), v
+        n += 1
     assert _int2(IntegerPoint('-4')) == -4
     assert _int2(IntegerInterval('P3')) == 3
     p = IntegerPoint('5')
